@@ -582,8 +582,8 @@ theorem history_refines (fm : FileM) (hwf : fm.WF) (store : Dev) (content : Byte
     simp only [histM, HistoryOK]
     exact ⟨_, step_refines fm hwf store content hag hsz h op, ih _⟩
 
-/-- the extent loop consults the configuration only for the skip test -/
-theorem ext4Loop_cfg (c c' : Cfg) (h : c.e4SkipLe = c'.e4SkipLe) (bs btr rsb : Nat) :
+/-- the extent loop consults the configuration only for the skip test and the negative-length guard -/
+theorem ext4Loop_cfg (c c' : Cfg) (h : c.e4SkipLe = c'.e4SkipLe) (h' : c.e4SkipNeg = c'.e4SkipNeg) (bs btr rsb : Nat) :
     ∀ (es : List Ext) (off rb : Nat) (segs : List Seg),
       ext4Loop c bs btr rsb es off rb segs = ext4Loop c' bs btr rsb es off rb segs := by
   intro es
@@ -591,7 +591,7 @@ theorem ext4Loop_cfg (c c' : Cfg) (h : c.e4SkipLe = c'.e4SkipLe) (bs btr rsb : N
   | nil => intro off rb segs; rfl
   | cons e es ih =>
     intro off rb segs
-    simp only [ext4Loop, h, ih]
+    simp only [ext4Loop, h, h', ih]
 
 theorem contigB_sound : ∀ (es : List Ext) (s : Nat), contigB s es = true → Contig s es := by
   intro es
